@@ -67,6 +67,7 @@ func vBookkeeping(s *reportSim) {
 		alive += vIteInt(w.state == WarriorAlive, 1, 0)
 		if w.pq != nil {
 			vAssert("alive-iff-tasks", vImplies(w.state == WarriorAlive, w.pq.length >= 1))
+			vAssert("process-limit", w.pq.length <= s.maxProcs)
 			for i := Address(0); i < w.pq.size; i++ {
 				vAssert("queued-pc-below-M", vImplies(i < w.pq.length, w.pq.queue[(w.pq.start+i)%w.pq.size] < s.m))
 			}
@@ -327,12 +328,29 @@ func VerifHarness_C13_reset_fresh() {
 	vUnwind(64)
 	s1.Reset()
 	for i := 0; i < n; i++ {
+		// not every warrior takes part in the next battle
+		if vParamOr("subset", 0) == 1 && vPick("respawn", 0, 1) == 0 {
+			continue
+		}
 		off := vPickOffset(M)
 		e1 := s1.SpawnWarrior(i, off)
 		e2 := s2.SpawnWarrior(i, off)
 		vAssert("respawn-ok", vAnd(e1 == nil, e2 == nil))
 	}
-	vAssertUnchanged("reset-equals-fresh", s1, s2)
+	// observable through the Warrior interface
+	for i := 0; i < n; i++ {
+		q1, q2 := s1.warriors[i].Queue(), s2.warriors[i].Queue()
+		vAssert("reset-equals-fresh-queue-query", len(q1) == len(q2))
+		vAssert("reset-equals-fresh-alive-query", s1.warriors[i].Alive() == s2.warriors[i].Alive())
+	}
+	if vParamOr("subset", 0) == 0 {
+		vAssertUnchanged("reset-equals-fresh", s1, s2)
+	} else {
+		vAssert("reset-equals-fresh", vAnd(s1.warriorLivingCount == s2.warriorLivingCount, s1.cycleCount == s2.cycleCount))
+		for a := Address(0); a < M; a++ {
+			vAssert("reset-equals-fresh", vSameInstr(s1.mem[a], s2.mem[a]))
+		}
+	}
 	vBookkeeping(s1)
 	// and they stay equal under a continuation
 	vUnwind(8)
@@ -344,7 +362,18 @@ func VerifHarness_C13_reset_fresh() {
 	vPrune(true)
 	vUnwind(64)
 	vAssert("reset-equals-fresh-after-cycle", r1 == r2)
-	vAssertUnchanged("reset-equals-fresh-after-cycle", s1, s2)
+	if vParamOr("subset", 0) == 0 {
+		vAssertUnchanged("reset-equals-fresh-after-cycle", s1, s2)
+	} else {
+		vAssert("reset-equals-fresh-after-cycle", vAnd(s1.warriorLivingCount == s2.warriorLivingCount, s1.cycleCount == s2.cycleCount))
+		for a := Address(0); a < M; a++ {
+			vAssert("reset-equals-fresh-after-cycle", vSameInstr(s1.mem[a], s2.mem[a]))
+		}
+		for i := 0; i < n; i++ {
+			vAssert("reset-equals-fresh-after-cycle", s1.warriors[i].Alive() == s2.warriors[i].Alive())
+			vAssert("reset-equals-fresh-after-cycle", len(s1.warriors[i].Queue()) == len(s2.warriors[i].Queue()))
+		}
+	}
 	vReach("end")
 }
 
